@@ -35,7 +35,7 @@ from pybrops.breed.op.ssel.SurvivorSelectionOperator import SurvivorSelectionOpe
 from pybrops.breed.op.log.Logbook import Logbook
 
 PROP = "C20"
-RUNS = {"quick": 40000, "thorough": 600000}
+RUNS = {"quick": 30000, "thorough": 600000}
 WALL = {"quick": 150, "thorough": 1500}
 RULE = ("scenario = 1-3 evolve() calls (nrep 0-4, ngen 0-4, loginit) on one programme object, a behaviour per fake "
         "operator (pure/mutate_container/mutate_objects/delkeys/same/stash), pre-initialised or via initop, and a crash "
@@ -116,11 +116,38 @@ def _mkstart(w):
     pg = world.pgmat(R, w["ntaxa"], w["nvrnt"], 1)
     bv = world.bvmat(R, w["ntaxa"], 1)
     gm = world.algmod(R, w["nvrnt"], 1)
-    out = [{"pg": pg, "k": 0}, {"pg": copy.deepcopy(pg), "k": 1}, {"tbl": numpy.arange(3.0), "k": 2},
+    # an unphased tetraploid genotype matrix (what unphased genotyping of a four-phase genome yields)
+    from pybrops.popgen.gmat.DenseGenotypeMatrix import DenseGenotypeMatrix
+    g4 = DenseGenotypeMatrix(numpy.array([[R.randint(0, 4) for _ in range(w["nvrnt"])] for _ in range(w["ntaxa"])], dtype="int8"),
+                             taxa=pg.taxa, taxa_grp=pg.taxa_grp, vrnt_chrgrp=pg.vrnt_chrgrp, vrnt_phypos=pg.vrnt_phypos, ploidy=4)
+    out = [{"pg": pg, "k": 0}, {"pg": copy.deepcopy(pg), "g4": g4, "k": 1}, {"tbl": numpy.arange(3.0), "k": 2},
            {"bv": bv, "k": 3}, {"gm": gm, "k": 4}]
     for i in w.get("empty", []):
         out[i] = {}
     return out
+
+
+# every array- or scalar-valued attribute that makes up the observable state of the objects kept in the containers
+ATTRS = ("mat", "taxa", "taxa_grp", "location", "scale", "u_a", "beta", "trait", "vrnt_xoprob", "vrnt_chrgrp", "vrnt_phypos", "vrnt_genpos",
+         "vrnt_name", "vrnt_mask", "ploidy", "nphase", "taxa_grp_name", "taxa_grp_stix", "taxa_grp_spix", "taxa_grp_len",
+         "vrnt_chrgrp_name", "vrnt_chrgrp_stix", "vrnt_chrgrp_spix", "vrnt_chrgrp_len")
+# attributes an operator may update in place (numeric arrays)
+MUTABLE = ("mat", "location", "scale", "u_a", "beta", "taxa_grp", "vrnt_xoprob", "vrnt_phypos")
+
+
+def _poke(v, serial, sign):
+    """Update one numeric array attribute of a library object in place (what an operator that re-centres, re-trains or
+    re-labels the object it was handed does); which attribute depends on the call serial."""
+    cands = [a for a in MUTABLE if isinstance(getattr(v, a, None), numpy.ndarray) and getattr(v, a).size and getattr(v, a).dtype.kind in "fiu"]
+    if not cands:
+        return False
+    arr = getattr(v, cands[serial % len(cands)])
+    ix = 0 if sign > 0 else -1
+    if arr.dtype.kind == "f":
+        arr.flat[ix] += 1.0 * sign
+    else:
+        arr.flat[ix] ^= 1
+    return True
 
 
 def _vdig(h, v):
@@ -128,7 +155,7 @@ def _vdig(h, v):
         h.update(v.dtype.str.encode()); h.update(repr(v.shape).encode()); h.update(numpy.ascontiguousarray(v).tobytes() if v.dtype != object else repr(v.tolist()).encode())
     elif hasattr(v, "mat") or hasattr(v, "u_a"):
         h.update(type(v).__name__.encode())
-        for a in ("mat", "taxa", "taxa_grp", "location", "scale", "u_a", "beta", "trait", "vrnt_xoprob", "vrnt_chrgrp"):
+        for a in ATTRS:
             x = getattr(v, a, None)
             h.update(a.encode())
             if x is not None:
@@ -194,16 +221,10 @@ class Sim:
                 c["hist"] = list(c.get("hist", [])) + [self.serial]
             elif mode == "mutate_objects":
                 for v in c.values():
-                    m = getattr(v, "mat", None)
-                    if isinstance(m, numpy.ndarray) and m.size:
-                        if m.dtype.kind == "f":
-                            m.flat[0] += 1.0
-                        else:
-                            m.flat[0] ^= 1
-                    elif isinstance(v, numpy.ndarray) and v.size:
+                    if isinstance(v, numpy.ndarray) and v.size:
                         v.flat[0] += 1.0
-                    elif isinstance(getattr(v, "u_a", None), numpy.ndarray) and v.u_a.size:
-                        v.u_a.flat[0] += 1.0           # "re-train" the model in place
+                    else:
+                        _poke(v, self.serial, +1)      # re-centre / re-train / re-label the object in place
             elif mode == "delkeys":
                 c.pop("k", None)
                 c["added%d" % (self.serial % 3)] = self.serial
@@ -220,14 +241,8 @@ class Sim:
             if rep < self.repl:
                 old["poison"] = self.serial
                 for v in old.values():
-                    m = getattr(v, "mat", None)
-                    if isinstance(m, numpy.ndarray) and m.size:
-                        if m.dtype.kind == "f":
-                            m.flat[-1] -= 1.0
-                        else:
-                            m.flat[-1] ^= 1
-                    elif isinstance(getattr(v, "u_a", None), numpy.ndarray) and v.u_a.size:
-                        v.u_a.flat[-1] -= 1.0
+                    if not isinstance(v, numpy.ndarray):
+                        _poke(v, self.serial, -1)
                 self.fault("stale_reference_mutated")
         self.last_ret = [cdig(c) for c in out]
         return out
